@@ -196,3 +196,15 @@ Theorem C04_the_number_written_for_a_named_switch_names_that_switch :
     exists slot, nth_error (fst sw) (N.to_nat k) = Some slot /\ sw_norm slot = sw_norm s /\ s_idx slot = Some k.
 Proof. exact saved_switch_number_names_the_switch. Qed.
 Print Assumptions C04_the_number_written_for_a_named_switch_names_that_switch.
+
+(* ... and the slot itself, read back by a later load: the location with the authored rectangle, name and elevation flags,
+   carrying the slot's number (content equal to an empty slot being the recorded C11 finding) *)
+Theorem C04_an_emitted_location_slot_is_read_back_as_the_location :
+  forall L l slot i0,
+    loc_encode L l = Ok slot -> length (l_elev l) = 6%nat -> (N.of_nat (length (sl_by_id L)) <= 1000000)%N ->
+    loc_is_unused slot = false ->
+    mrgn_decode_locs L [slot] i0 =
+      Ok [{| l_x1 := l_x1 l; l_y1 := l_y1 l; l_x2 := l_x2 l; l_y2 := l_y2 l; l_name := l_name l; l_idx := Some (i0 + 1)%N;
+             l_elev := l_elev l; l_oid := 0%N |}].
+Proof. exact an_emitted_location_slot_reads_back. Qed.
+Print Assumptions C04_an_emitted_location_slot_is_read_back_as_the_location.
